@@ -672,6 +672,8 @@ def container_method(pack, interp, recv, name, args, kwargs, node):
             return ops.mk_bool(z3.SuffixOf(to_term(args[0]), to_term(recv)))
         if name == "join":
             src = args[0]
+            if isinstance(src, PyList) and is_concrete(recv) and all(isinstance(x, type(recv)) for x in src.items):
+                return recv.join(src.items)  # concrete separator and parts
             if isinstance(src, PyList):
                 if not src.items:
                     return recv
